@@ -104,6 +104,19 @@ int main(int argc, char** argv){
           bool thr = exc_pending; exc_pending = 0; vm_fail_at = -1; if (k < 0) used = vm_alloc_count - a0;
           if (thr && !sgo) { int sg3 = guarded([&]{ same(lab + " failed operation leaves the table unchanged:", pre, r); }); eqi(lab + " the table can still be inspected after the failed operation", sg3, 0); }
           destroy_checked(lab, r); ir_t_destroy((char*)&pre); eqi(lab + " every block is released exactly once", live0(), base); eqi(lab + " no double / foreign delete", vm_errors, berr); vm_errors = berr; } }
+    } else if (sc == "keylimits") {
+      // C16: a string value is accepted iff it fits the 80-column card next to its key (independent oracle: 68 characters for
+      // standard keys, 80-(13+len) for HIERARCH keys); a rejected write leaves the store unchanged, an accepted one is stored whole
+      ir_t_write_fits((char*)&t, path); if (exc_pending) vs_error("twin write threw");
+      for (unsigned kl : {1u, 8u, 9u, 10u, 21u, 30u}) for (int delta : {0, 1}) {
+        unsigned lim = kl <= 8 ? 68 : 80 - (13 + kl); unsigned vl = lim + delta; std::string key(kl, 'K'), val(vl, 'v'); key[0] = 'Q';
+        std::string lab = id + " write_key(key of " + std::to_string(kl) + " characters, value of " + std::to_string(vl) + "):";
+        int base = live0(); ps_table r; ir_t_default_construct((char*)&r); ir_t_read_fits((char*)&r, path); ps_table pre; ir_t_default_construct((char*)&pre); ir_t_read_fits((char*)&pre, path); if (exc_pending) vs_error("read failed");
+        ir_t_write_key_str((char*)&r, (char*)key.c_str(), (char*)val.c_str()); bool thr = exc_pending; exc_pending = 0;
+        eqi(lab + " rejected exactly when the value does not fit the card", thr, delta > 0);
+        if (thr) same(lab + " rejected write leaves the store unchanged:", pre, r);
+        else { char* got = ir_t_get_aux_value((char*)&r, (char*)key.c_str()); eqi(lab + " accepted value is stored whole", got && val == got, 1); }
+        ir_t_destroy((char*)&r); ir_t_destroy((char*)&pre); eqi(lab + " every block is released exactly once", live0(), base); }
     } else if (sc == "convolve" || sc == "permute") {
       ir_t_write_fits((char*)&t, path); if (exc_pending) vs_error("twin write threw");
       vr64 kk[3]; for (int i = 0; i < 3; i++) kk[i] = vs_q(i - 1, 1); std::vector<uint64_t> perm(s.nd); for (unsigned d = 0; d < s.nd; d++) perm[d] = s.nd - 1 - d;
